@@ -545,7 +545,19 @@ def r01_9(run, model, only_fns=None, rid="R01.9", floor=160):
                         if fl["name"] not in kids:
                             continue
                         n += 1
-                        ok = through(fl["expr"])
+
+                        def fresh_leaf(x, depth=0):
+                            """a node without sub-terms built on the spot (a variable naming an apply function, a literal): nothing to rewrite in it"""
+                            if x["k"] == "Call" and S.callee_name(x) in ("Box::new", "new", "Some") and x["args"]:
+                                return fresh_leaf(x["args"][0], depth)
+                            if x["k"] == "Struct":
+                                v2 = variants.get(x["segs"][-1])
+                                return v2 is not None and not P.child_fields(v2, t.enum["name"], extra=("ImmExpr", "AExpr", "CExpr"))
+                            if x["k"] == "Path" and len(x["segs"]) == 1 and depth < 2:
+                                bs = binders(x["segs"][0])
+                                return bool(bs) and all(fresh_leaf(b, depth + 1) for b in bs)
+                            return False
+                        ok = through(fl["expr"]) or fresh_leaf(fl["expr"])
                         led = RECUR_LEDGER.get((t.fn.name, vname, fl["name"]))
                         run.ob(rid, f"{t.fn.name}|{vname}.{fl['name']} is filled from the traversal", ok or led is not None, site(t.fn.file, fl["expr"]["sp"]),
                                f"{t.enum_name}::{vname}.{fl['name']} = `{S.norm_ws(run.facts.text(t.fn.file, fl['expr']['sp']))[:60]}`; traversal functions: {sorted(rec)}" +
